@@ -25,8 +25,11 @@ type Family struct {
 	Depth   map[string]int              // tier -> depth
 	Obs     drv.ObsMask
 	KeySet  []int
-	Setup   func(w *drv.World)          // hooks (AtClose ...) installed on every fresh world
-	After   func(w *drv.World, fp uint64) // family invariants evaluated after the observation of a new state
+	LeafObs drv.ObsMask                 // observation after a leaf letter (default: Obs)
+	Setup   func(w *drv.World)          // installed on every fresh world
+	AtClose func(w *drv.World)          // runs whenever the final letter of a transition closes the directory
+	Before  func(w *drv.World) any      // snapshot taken before the final letter
+	After   func(w *drv.World, letter string, before any) // family invariants after the final letter
 	Prefix  []string                    // letters applied before the search starts (non-initial start state)
 }
 
@@ -107,15 +110,25 @@ func Worker(raw json.RawMessage) any {
 		}
 		defer w.Cleanup()
 		w.Dis = nil
+		var pre any
+		if f.Before != nil {
+			pre = f.Before(w)
+		}
+		w.AtClose = f.AtClose
 		ok := w.Apply(letter)
+		w.AtClose = nil
 		s := Succ{Letter: letter, Leaf: leaf, Fatal: !ok}
 		if ok && w.L != nil {
 			if !leaf {
 				s.Key = w.Key()
 			}
-			s.FP = w.Observe(mask | drv.ObsFP)
+			m := mask
+			if leaf && f.LeafObs != 0 {
+				m = f.LeafObs
+			}
+			s.FP = w.Observe(m | drv.ObsFP)
 			if f.After != nil {
-				f.After(w, s.FP)
+				f.After(w, letter, pre)
 			}
 		}
 		s.Dis = w.Dis
@@ -292,7 +305,7 @@ func Signature(msg string) string {
 		b.WriteRune(c)
 	}
 	s := b.String()
-	if i := strings.Index(s, " ["); i > 0 {
+	if i := strings.Index(s, " [live"); i > 0 {
 		s = s[:i]
 	}
 	if len(s) > 160 {
